@@ -55,6 +55,11 @@ ChildlessMixes == {[t \in Threads |-> IF t = "t1" THEN a ELSE b] :
 \* three goroutines asking one scope for the same scoped service
 TripleGetMixes == {[t \in Threads |-> Op("get", "s1", "A")]}
 
+\* scopes created on the PROVIDER (and on a scope) while the provider or that scope is being closed
+ProvCreateMixes == {[t \in Threads |-> IF t = "t1" THEN a ELSE b] :
+                       a \in {Op("pclose", "prov", NONE), Op("close", "s1", NONE)},
+                       b \in {Op("create", "prov", NONE), Op("create", "s1", NONE)}}
+
 PreNone == {}
 PreAB == {<<"s1", "B">>, <<"s1", "A">>, <<"s2", "B">>, <<"s2", "A">>}
 PreS1 == {<<"s1", "B">>, <<"s1", "A">>}
